@@ -23,6 +23,9 @@ class SrpClientModel(StubObj):
     def __init__(self, it, username, password):
         self.a = it.ctx.fresh("srp_a", I)
         it.ctx.assume(self.a >= 0)
+        from .values import SInt
+
+        self.f_a = SInt(self.a)
         self.user = username
         self.pin = ops.str_term(password)
         self.salt = None
@@ -80,5 +83,12 @@ class SrpClientModel(StubObj):
 
 def install(env):
     from aiohomekit.crypto.srp import SrpClient
+
+    env.srp_symbols = {
+        "srpA": lambda it, a: ops.mk_bytes(F_srp_A(ops.int_term(a))),
+        "srpM1": lambda it, a, pin, salt, B: ops.mk_bytes(F_srp_M1(ops.int_term(a), ops.str_term(pin), ops.bytes_term(salt), ops.bytes_term(B))),
+        "srpM2": lambda it, a, pin, salt, B: ops.mk_bytes(F_srp_M2(ops.int_term(a), ops.str_term(pin), ops.bytes_term(salt), ops.bytes_term(B))),
+        "srpK": lambda it, a, pin, salt, B: ops.mk_bytes(F_srp_K(ops.int_term(a), ops.str_term(pin), ops.bytes_term(salt), ops.bytes_term(B))),
+    }
 
     env.stub(SrpClient, lambda it, username, password: SrpClientModel(it, username, password))
